@@ -20,7 +20,7 @@ fn strategy(kind: &str, rng: &mut Rng) -> Box<dyn Strategy> {
 
 fn main() {
     let a: Vec<String> = std::env::args().collect();
-    assert!(a.len() >= 5 && (a[1] == "sweep" || a[1] == "one"), "usage: e2e sweep <seed> <count> <outdir> [k=v...] | e2e one <block_seed> <sched_seed> <outdir> [k=v...]");
+    assert!(a.len() >= 5 && (a[1] == "sweep" || a[1] == "one" || a[1] == "matrix"), "usage: e2e sweep <seed> <count> <outdir> [k=v...] | e2e one <block_seed> <sched_seed> <outdir> [k=v...]");
     let seed: u64 = a[2].parse().unwrap();
     let count: u64 = a[3].parse().unwrap();
     let outdir = &a[4];
@@ -40,6 +40,52 @@ fn main() {
     let mut summary = fs::File::create(format!("{outdir}/summary.txt")).unwrap();
     let mut rng = Rng::new(seed);
     let (mut mismatches, mut failures) = (0u64, 0u64);
+    if a[1] == "matrix" {
+        // config matrix (C06): every block under several configurations; all must equal the oracle
+        let mut paths: HashMap<String, u64> = HashMap::new();
+        for case in 0..count {
+            let block_seed = rng.next();
+            let mut crng = Rng(block_seed);
+            let n = crng.range(tlo, thi) as usize;
+            let opts = GenOpts { invalid: crng.chance(1, 2), destroy: crng.chance(1, 2), create: crng.chance(1, 2), beneficiary_roles: true, shared_callers: crng.chance(1, 2) };
+            let (world, block) = gen_block(&mut crng, n, opts);
+            let orc = oracle(&world.db, &block);
+            let cfgs: Vec<(&str, RunCfg, bool)> = vec![
+                ("w1-driven", RunCfg { workers: 1, ..Default::default() }, true),
+                ("w3-driven", RunCfg { workers: 3, ..Default::default() }, true),
+                ("w2-driven-b", RunCfg { workers: 2, ..Default::default() }, true),
+                ("w16-free", RunCfg { workers: 16, ..Default::default() }, false),
+                ("w4-free", RunCfg { workers: 4, ..Default::default() }, false),
+                ("threshold-n", RunCfg { workers: 2, min_parallel_txs: n, ..Default::default() }, false),
+                ("threshold-n+1", RunCfg { workers: 2, min_parallel_txs: n + 1, ..Default::default() }, false),
+                ("force-seq", RunCfg { workers: 2, force_sequential: true, ..Default::default() }, false),
+                ("fallback-entry", RunCfg { workers: 2, fallback_entry: true, ..Default::default() }, false),
+            ];
+            let mut taken = Vec::new();
+            for (name, rc, driven) in cfgs {
+                let mut db = world.db.clone_data();
+                db.points = driven;
+                let st = if driven { Some(strategy("random", &mut crng)) } else { None };
+                let run = run_grevm(db, &block, &rc, st, maxsteps);
+                let diffs = compare(&orc, &run.result);
+                let path = match &run.report {
+                    Some(r) => if r.trace.iter().any(|e| e.kind == "seq_exec") { if r.trace.iter().any(|e| e.kind == "commit_done") { "parallel+replay" } else { "sequential" } } else { "parallel" },
+                    None => "free",
+                };
+                taken.push(path);
+                *paths.entry(format!("{name}:{path}")).or_default() += 1;
+                if !diffs.is_empty() {
+                    mismatches += 1;
+                    let mut f = fs::File::create(format!("{outdir}/fail-{case}-{name}.txt")).unwrap();
+                    writeln!(f, "matrix case {case} block_seed={block_seed} config={name}\ndescr: {:#?}\ndiffs: {:#?}", block.descr, diffs).unwrap();
+                }
+            }
+            taken.sort(); taken.dedup();
+            writeln!(summary, "case {case} block_seed={block_seed} n={n} paths={}", taken.join("+")).unwrap();
+        }
+        println!("cases={count} mismatches={mismatches} driver_failures=0 paths={paths:?}");
+        return;
+    }
     let cases: Vec<(u64, u64)> = if a[1] == "one" {
         // e2e one <block_seed> <sched_seed> <outdir> ...: replay exactly one (block, schedule)
         vec![(seed, count)]
@@ -50,7 +96,7 @@ fn main() {
         let mut crng = Rng(block_seed);
         let n = crng.range(tlo, thi) as usize;
         let opts = GenOpts {
-            invalid: optsv.contains("invalid") && crng.chance(1, 2),
+            invalid: optsv.contains("invalid") && (crng.chance(1, 2) || optsv.contains("forceinvalid")),
             destroy: optsv.contains("destroy") && crng.chance(1, 2),
             create: optsv.contains("create") && crng.chance(1, 2),
             beneficiary_roles: optsv.contains("ben"),
